@@ -30,13 +30,7 @@ Theorem c19_epoch_cap : forall now calc bal g g' bal' paid,
      g_triggered g' = g_triggered g + 1 /\ epoch_allocation g <= g_deposit g - g_distributed g /\
      g_triggered g <> g_total g /\ g_active g = true /\ g_start g <= now) /\
   bal' = bal - pay_total paid /\ (0 <= bal -> 0 <= bal') /\ g_deposit g' = g_deposit g /\ g_total g' = g_total g.
-Proof.
-  intros now calc bal g g' bal' paid E.
-  pose proof (trigger_spec _ _ _ _ _ _ _ E) as (D1 & D2 & D3 & D4 & D5 & D6 & D7). cbv zeta in *.
-  destruct D7 as (P1 & P2 & P3 & [(A & B & C)|(A & B & C & D & F)]).
-  - rewrite A, Z.eqb_refl. repeat split; try lia.
-  - destruct (Z.eqb_spec (g_triggered g') (g_triggered g)); [lia|]. repeat split; try lia; tauto.
-Qed.
+Proof. exact epoch_cap. Qed.
 Print Assumptions c19_epoch_cap.
 
 (* the same for a swap-fee gauge: the epoch's allocation is the deposit it has accumulated; it
@@ -49,13 +43,7 @@ Theorem c19_epoch_cap_swapfee : forall calc recv bal g g' bal' paid,
   ((g' = g /\ bal' = bal) \/
    exists r, recv = Ok r /\ g_triggered g' = g_triggered g + 1 /\
              g_deposit g' = g_deposit g - (g_distributed g' - g_distributed g) + r /\ bal' = bal - pay_total paid + r).
-Proof.
-  intros calc recv bal g g' bal' paid Hs Hd E Hk.
-  apply trigger_swap_spec in E. destruct E as [(E1 & B & C & B' & D)|(tot & r & E1 & E2 & C & D & F & G & G')].
-  - subst g'. destruct D as [D|[D|D]]; [|congruence|congruence]. split; [lia|]. split; [lia|]. left. split; [reflexivity|lia].
-  - subst g' recv. cbn [g_swap_paid g_distributed g_deposit g_triggered]. split; [lia|]. split; [lia|]. right. exists r.
-    repeat split; lia.
-Qed.
+Proof. exact epoch_cap_swapfee. Qed.
 Print Assumptions c19_epoch_cap_swapfee.
 
 (* the cumulative amount booked as distributed (an upper bound of what was paid) never exceeds the
@@ -65,10 +53,7 @@ Print Assumptions c19_epoch_cap_swapfee.
    and programs misbehaving) and other credits; failed steps change nothing *)
 Theorem c19_cumulative : forall ops g, In g (r_gauges (rrun rinit ops)) -> g_swap g = false ->
   0 <= g_distributed g <= g_deposit g.
-Proof.
-  intros ops g Hin Hs. pose proof (rrun_ginvr ops rinit ltac:(constructor)) as HG.
-  rewrite Forall_forall in HG. exact (HG g Hin Hs).
-Qed.
+Proof. exact cumulative_all. Qed.
 Print Assumptions c19_cumulative.
 
 (* the whole life of one gauge, creation -> every epoch -> exhaustion: after ANY sequence of trigger
@@ -106,13 +91,7 @@ Print Assumptions c19_custody.
 Theorem c19_custody_swapfee_refuted : exists ops d, forallb op_wf ops = true /\ run_clean rinit ops = false /\
   let s := rrun rinit ops in
   r_bal s d < owed d s /\ holds_C19_custody d (r_bal s d) (r_gauges s) (r_exts s) = false.
-Proof.
-  exists [CreateSwap 1 0 86400; Create 1 1000 5 400000 0 129600 1000 true;
-          Begin 10 (mkBenv [] [] []); Begin 50000 (mkBenv [FarmErr; FarmErr] [Ok 500; Err 1] []);
-          Begin 140000 (mkBenv [FarmPlain [(7, 1000000000000000000)]; FarmErr] [Err 1; Err 1] []);
-          Begin 230000 (mkBenv [FarmPlain [(7, 1000000000000000000)]; FarmErr] [Err 1; Err 1] [])], 1.
-  vm_compute. repeat split.
-Qed.
+Proof. exact custody_swapfee_refuted. Qed.
 Print Assumptions c19_custody_swapfee_refuted.
 
 (* known finding C19-F3: six equal lockers, 5*10^18 available on the last day: the program books
@@ -120,12 +99,7 @@ Print Assumptions c19_custody_swapfee_refuted.
 Theorem c19_custody_program_refuted : exists ops d, forallb op_wf ops = true /\ run_clean rinit ops = false /\
   let s := rrun rinit ops in
   r_bal s d < owed_g d (r_gauges s) /\ holds_C19_custody d (r_bal s d) (r_gauges s) (r_exts s) = false.
-Proof.
-  exists [ExtCreate 0 5 5000000000000000000 1 1 0 5000000000000000000 true; Create 5 1000 3 500000 0 86400 1000 true;
-          Begin 10 (mkBenv [FarmErr] [] [mkXenv 6000000 [(11,1000000,0);(12,1000000,0);(13,1000000,0);(14,1000000,0);(15,1000000,0);(16,1000000,0)]]);
-          Begin 86401 (mkBenv [FarmErr] [] [mkXenv 6000000 [(11,1000000,0);(12,1000000,0);(13,1000000,0);(14,1000000,0);(15,1000000,0);(16,1000000,0)]])], 5.
-  vm_compute. repeat split.
-Qed.
+Proof. exact custody_program_refuted. Qed.
 Print Assumptions c19_custody_program_refuted.
 
 (* epoch timing: a tick triggers at most one epoch and only strictly after its end; after a halt of
@@ -156,6 +130,17 @@ Theorem c19_share : forall coins total s, 0 <= coins -> 0 < total -> P18 <= s ->
   holds_C19_share coins total s (share_reward coins total s) = true.
 Proof. exact share_bound. Qed.
 Print Assumptions c19_share.
+
+(* the same through the farming calculation of a gauge: every reward GetFarmingRewardsData returns
+   (plain pool, or master pool with the min(master, child) rule) belongs to a farmer with an
+   eligible value and is within one part in 10^12 of coins * value / total eligible value *)
+Theorem c19_share_farm : forall e coins ps a r, farm_calc e coins = Ok ps -> In (a, r) ps -> 0 <= coins ->
+  Forall (fun f => 0 <= snd f) (eligible e) ->
+  let total := zsum (map snd (eligible e)) in
+  exists s, In (a, s) (eligible e) /\
+    (P18 <= s -> kf_C19_1 coins total = false -> holds_C19_share coins total s r = true).
+Proof. exact farm_share_bound. Qed.
+Print Assumptions c19_share_farm.
 
 (* known finding C19-F1: allocation 1, two farmers worth 3 000 000 004 and 1 units: the first is
    paid 1 although its pro-rata share is below 1 by 3.3e-10 (relative) *)
@@ -199,4 +184,25 @@ Proof. vm_compute. reflexivity. Qed.
 
 Example c19_share_example : farm_rewards 10000000000 [1000000000000000000000; 2000000000000000000000; 7000000000000000000000]
   = [1000000000; 2000000000; 7000000000].
+Proof. vm_compute. reflexivity. Qed.
+
+(* master pool: farmer 2 has nothing in the child pools, so the whole allocation goes to farmer 1 *)
+Example c19_master_example :
+  farm_calc (FarmMaster [(1, 3000000000000000000); (2, 5000000000000000000)] [2000000000000000000; 0]) 1000 = Ok [(1, 1000)] /\
+  eligible (FarmMaster [(1, 3000000000000000000); (2, 5000000000000000000)] [2000000000000000000; 0])
+  = [(1, 2000000000000000000); (2, 0)].
+Proof. vm_compute. split; reflexivity. Qed.
+
+Example c19_epoch_timing_example :
+  epoch_tick 100 (mkEpoch false 3 10 40) = (mkEpoch false 4 50 40, TTrigger) /\
+  epoch_tick 100 (mkEpoch false 3 10 30) = (mkEpoch false 3 100 30, TSkipped) /\
+  epoch_tick 100 (mkEpoch true 0 100 30) = (mkEpoch false 0 70 30, TFresh) /\
+  snd (epoch_tick 100 (mkEpoch false 3 70 30)) = TNothing.
+Proof. vm_compute. repeat split. Qed.
+
+(* a swap-fee gauge holding 500: it pays 166 + 333 to two farmers worth 1 and 2, books 499 and takes in 40 *)
+Example c19_swapfee_example :
+  trigger_swap (farm_calc (FarmPlain [(1, 1000000000000000000); (2, 2000000000000000000)])) (Ok 40) 9000
+               (mkGauge 500 10 4 1 true 0 86400 true 1)
+  = Ok (mkGauge 41 509 5 1 true 0 86400 true 1, 8541, [(1, 166); (2, 333)]).
 Proof. vm_compute. reflexivity. Qed.
